@@ -61,6 +61,20 @@ func convertToComplex(other Object) (Complex, bool) {
 	return 0, false
 }
 
+// Convert the other operand of a complex arithmetic operation to a Complex
+//
+// Returns ok as to whether the conversion worked or not, and the
+// OverflowError if other is an int too large to be represented as a
+// float
+func complexOperand(other Object) (b Complex, ok bool, err error) {
+	if big, isBig := other.(*BigInt); isBig {
+		f, err := big.Float()
+		return Complex(complex(f, 0)), err == nil, err
+	}
+	b, ok = convertToComplex(other)
+	return b, ok, nil
+}
+
 func (a Complex) M__str__() (Object, error) {
 	return String(fmt.Sprintf("(%g%+gj)", real(complex128(a)), imag(complex128(a)))), nil
 }
@@ -82,7 +96,9 @@ func (a Complex) M__abs__() (Object, error) {
 }
 
 func (a Complex) M__add__(other Object) (Object, error) {
-	if b, ok := convertToComplex(other); ok {
+	if b, ok, err := complexOperand(other); err != nil {
+		return nil, err
+	} else if ok {
 		return Complex(a + b), nil
 	}
 	return NotImplemented, nil
@@ -97,14 +113,18 @@ func (a Complex) M__iadd__(other Object) (Object, error) {
 }
 
 func (a Complex) M__sub__(other Object) (Object, error) {
-	if b, ok := convertToComplex(other); ok {
+	if b, ok, err := complexOperand(other); err != nil {
+		return nil, err
+	} else if ok {
 		return Complex(a - b), nil
 	}
 	return NotImplemented, nil
 }
 
 func (a Complex) M__rsub__(other Object) (Object, error) {
-	if b, ok := convertToComplex(other); ok {
+	if b, ok, err := complexOperand(other); err != nil {
+		return nil, err
+	} else if ok {
 		return Complex(b - a), nil
 	}
 	return NotImplemented, nil
@@ -115,7 +135,9 @@ func (a Complex) M__isub__(other Object) (Object, error) {
 }
 
 func (a Complex) M__mul__(other Object) (Object, error) {
-	if b, ok := convertToComplex(other); ok {
+	if b, ok, err := complexOperand(other); err != nil {
+		return nil, err
+	} else if ok {
 		return Complex(a * b), nil
 	}
 	return NotImplemented, nil
@@ -130,14 +152,18 @@ func (a Complex) M__imul__(other Object) (Object, error) {
 }
 
 func (a Complex) M__truediv__(other Object) (Object, error) {
-	if b, ok := convertToComplex(other); ok {
+	if b, ok, err := complexOperand(other); err != nil {
+		return nil, err
+	} else if ok {
 		return Complex(a / b), nil
 	}
 	return NotImplemented, nil
 }
 
 func (a Complex) M__rtruediv__(other Object) (Object, error) {
-	if b, ok := convertToComplex(other); ok {
+	if b, ok, err := complexOperand(other); err != nil {
+		return nil, err
+	} else if ok {
 		return Complex(b / a), nil
 	}
 	return NotImplemented, nil
